@@ -335,6 +335,10 @@ class GenWalker:
         if isinstance(base, Obj):
             if attr in base.attrs:
                 return base.attrs[attr]
+            if base.cls:
+                found, val = self.repo.class_const(base.cls, attr)  # `removes = True` in the class body (through the MRO)
+                if found and (isinstance(val, (bool, int, str)) or val is None):
+                    return val
             if attr == "generate":
                 return _Bound(base, attr)
             if base.cls and self.repo.resolve_method(base.cls, attr):
